@@ -46,7 +46,7 @@ fn dispatch(toks: &[&str]) -> String {
         "sectorops" => sectorops::run(toks),
         "dpbinfo" => { let d = a2kit::bios::dpb::DiskParameterBlock::create(&geom::kind_of(toks[2])); format!("{} {} {} {} {} {}",d.bsh,d.off,d.dsm,d.drm,d.exm,d.spt) },
         "crc32" | "crc16" | "imdtrk" | "codec" | "metasweep" => codec::dispatch(toks),
-        "deseq" | "dosbin" | "probin" | "dostok" | "pack" | "txtb" | "pasenc" | "pasdec" | "txtenc" | "txtdec" => packrun::dispatch(toks),
+        "deseq" | "dosbin" | "probin" | "dostok" | "pack" | "txtb" | "pasenc" | "pasdec" | "txtenc" | "txtdec" | "recpack" => packrun::dispatch(toks),
         "malform" => malform::run(toks),
         "wozchunk" | "imdparse" | "dosunbin" | "dasmsweep" => malform::pieces(toks),
         "tokrt" | "escas" | "escint" | "unesc" | "menc" | "mdec" | "mfmt" | "renum" | "applyright" | "analyze" => langrun::dispatch(toks),
